@@ -29,6 +29,7 @@ var replayFamilies = map[string]replayFamily{
 	"attr":   {".", "attr_test.go", "TestStickvcReplayAttr"},
 	"exec":   {"twig", "exec_test.go", "TestStickvcReplayExec"},
 	"leak":   {".", "leak_test.go", "TestStickvcReplayLeak"},
+	"pos":    {"parse", "pos_test.go", "TestStickvcReplayPos"},
 }
 
 type ReplayFile struct {
@@ -105,7 +106,7 @@ func writeReplay(e *Engine, pc *PropConfig, o *Obligation, header *Universe, dir
 		rf.Candidates = cands
 		cb, _ := json.Marshal(cands)
 		rf.Env = map[string]string{"STICKVC_CANDIDATES": string(cb), "STICKVC_SKIP": knownSkip(pc.ID)}
-		if pc.Replay == "exec" || pc.Replay == "leak" {
+		if pc.Replay == "exec" || pc.Replay == "leak" || pc.Replay == "pos" {
 			wb, _ := json.Marshal(pc.Witnesses)
 			rf.Env["STICKVC_INPUTS"] = string(wb)
 		}
